@@ -30,7 +30,7 @@ inductive ROp where
   | peek (n : Int)
   | skip (n : Int)
   | readBinary (n : Nat)
-  | release
+  | release (e : Option RErr)   -- Release(e): the argument is the caller's error, if any
   | readLen
 deriving Repr, DecidableEq
 
@@ -85,7 +85,7 @@ def Cur.step {ε : Type} (c : Cur) : ROp → RRes ε → Except String Cur
     else if b ≠ c.rest.take m then .error "bytes"
     else if m < n ∧ e.isNone then .error "short-without-error"
     else .ok { c with pos := c.pos + m }
-  | .release, .done => .ok { c with mark := c.pos }
+  | .release _, .done => .ok { c with mark := c.pos }
   | .readLen, .len k => if k = c.pos - c.mark then .ok c else .error "readlen"
   | _, _ => .error "shape"
 
@@ -176,11 +176,14 @@ structure Credit where
   K : Nat
   credit : Nat
   all : Bool
+  /-- served high-water mark: the stream offset up to which the source has demonstrably handed its
+      bytes to the reader (the reader has already served them: Next/Peek/Skip/ReadBinary results) -/
+  hi : Nat := 0
 deriving Repr, DecidableEq
 
 def Credit.init (live : Bool) (script : List Resp) : Credit :=
-  if script.all (fun x => x.err.isNone && decide (1 ≤ x.k)) then ⟨minK script, script.length * minK script, live⟩
-  else ⟨0, 0, live⟩
+  if script.all (fun x => x.err.isNone && decide (1 ≤ x.k)) then ⟨minK script, script.length * minK script, live, 0⟩
+  else ⟨0, 0, live, 0⟩
 
 /-- must this request be served in full (all `n` bytes, or — ReadBinary past the end — all that is left)? -/
 def Credit.must (cr : Credit) (c : Cur) (op : ROp) : Bool :=
@@ -199,8 +202,38 @@ def Credit.after (cr : Credit) (c : Cur) (op : ROp) : Credit :=
     else if c.rest.length ≤ cr.credit then { cr with all := true }   -- the source is drained now
     else { cr with credit := 0 }
 
+/-- the stream offset up to which a report shows bytes served -/
+def servedMark {ε : Type} (c : Cur) : ROp → RRes ε → Nat
+  | .next _, .bytes b | .peek _, .bytes b => c.pos + b.length
+  | .skip n, .done => c.pos + n.toNat
+  | .readBinary _, .rb _ m _ => c.pos + m
+  | _, _ => 0
+
+/-- productive entries up to and including the first error entry (all entries if there is none).
+    Each of them hands over ≥ 1 byte while bytes are left and the reader offers room, so at least
+    `min (prodToErr script) |S|` bytes are out of the source before its own error can be seen. -/
+def prodToErr : List Resp → Nat
+  | [] => 0
+  | x :: rest => (if x.k ≥ 1 then 1 else 0) + (if x.err.isSome then 0 else prodToErr rest)
+
+/-- TIMELINESS of a failure: data must really have run out.
+    A failing Next/Peek/Skip(n) at `pos` claims that fewer than `n` bytes are available behind `pos`;
+    a short ReadBinary claims that exactly `m` were.  That contradicts (a) bytes the reader has
+    already served (`cr.hi`: e.g. a successful Peek(10) followed by a failing Next(5)), and (b) for
+    the source's own error (anything but io.ErrNoProgress): the bytes every productive entry in front
+    of that error must have handed over (one each at least; data arriving with the error counts). -/
+def timely (script : List Resp) (cr : Credit) (c : Cur) : ROp → RRes RErr → Bool
+  | .next n, .fail (some e) | .peek n, .fail (some e) | .skip n, .fail (some e) =>
+    n < 0 || (decide (c.pos + n.toNat > cr.hi) &&
+              (e == .noProgress || decide (c.pos + n.toNat > min (prodToErr script) c.S.length)))
+  | .readBinary _, .rb _ m (some e) =>
+    decide (c.pos + m ≥ cr.hi) &&
+      (e == .noProgress || decide (c.pos + m ≥ min (prodToErr script) c.S.length))
+  | _, _ => true
+
 /-- the complete judgement of one report (this is the driver's verdict): the cursor contract, then
-    error provenance, then liveness wherever the source's `Credit` says the request must be served -/
+    error provenance and timeliness, then liveness wherever the source's `Credit` says the request
+    must be served -/
 def Cur.judge (M : Nat) (script : List Resp) (cr : Credit) (c : Cur) (op : ROp) (res : RRes RErr) :
     Except String (Cur × Credit) :=
   match c.step op res with
@@ -209,8 +242,9 @@ def Cur.judge (M : Nat) (script : List Resp) (cr : Credit) (c : Cur) (op : ROp) 
     if (match res.err with
         | some e => !errAllowed M script op e
         | none => false) then .error "foreign-error"
+    else if !timely script cr c op res then .error "premature-error"
     else if cr.must c op && !liveOk c op res then .error "spurious-failure"
-    else .ok (c', cr.after c op)
+    else .ok (c', { cr.after c op with hi := max cr.hi (servedMark c op res) })
 
 def Cur.judgeRun (M : Nat) (script : List Resp) (cr : Credit) (c : Cur) :
     List (ROp × RRes RErr) → Except String (Cur × Credit)
